@@ -1,5 +1,6 @@
 import asyncio
 import contextlib
+import math
 import random
 import sys
 import weakref
@@ -472,23 +473,28 @@ class PosPriorityQueue(Generic[T]):
             if len(self._pq) > 0:
                 self.n_removed += 1
             else:
+                # the queue is empty: start counting afresh.  last_maintenance
+                # is measured on the same scale and must be reset with them.
                 self.n_inserted = self.n_removed = 0
+                self.last_maintenance = 0
 
     def do_maintenance(self) -> None:
         """Iterate over the queue, gather priority information and boost
         priority of objects which have been waiting for a long time."""
         if not self.priority_boost_factor:
             return  # pragma: no cover
-        pri, _ = self._pq.peekitem()
-        min_pri = max_pri = pri.priority()
+        # only regular entries take part: positional (class 0) entries are
+        # neither boosted nor do they define the priority range.
+        min_pri = math.inf
+        max_pri = -math.inf
         stragglers = []
         limit = self.n_inserted - len(self._pq)
         for pri, obj in self._pq.items():
             if pri.priority_class == 0:
                 continue
-            base_pri = pri.priority()
-            min_pri = min(min_pri, base_pri)
-            max_pri = max(max_pri, base_pri)
+            cur_pri = pri.priority()
+            min_pri = min(min_pri, cur_pri)
+            max_pri = max(max_pri, cur_pri)
             # we dermine long-waiting objects to be those inserted more than
             # queue len ago.
             if pri.inserted_at < limit:
@@ -503,11 +509,14 @@ class PosPriorityQueue(Generic[T]):
         n_boosted = 0
         for pri, _ in stragglers:
             # we boost the priority of long waiting objects by a random
-            # factor to bring it below the min_pri.
-            if pri.base_priority > min_pri:  # pragma: no branch
-                pb = self.compute_priority_boost(pri.base_priority, min_pri, max_pri)
-                if pb:  # pragma: no branch
-                    pri.priority_boost = pb
+            # factor to bring it below the min_pri.  The current priority
+            # (including earlier boosts) is what counts, and a boost only
+            # ever makes an entry more urgent.
+            cur_pri = pri.priority()
+            if cur_pri > min_pri:  # pragma: no branch
+                pb = self.compute_priority_boost(cur_pri, min_pri, max_pri)
+                if pb < 0:  # pragma: no branch
+                    pri.priority_boost += pb
                     n_boosted += 1
         if n_boosted > 0:  # pragma: no branch
             self._pq.refresh()
